@@ -205,7 +205,12 @@ def build_probe_uod(hw: SimHardware, plog: ProbeLog, clock_read: Callable[[], fl
         else:
             b = b.with_tag(Tag(name, value=value, unit=unit))
     for name, units in (extra_cmds or []):
-        b = b.with_command_regex_arguments(name, RegexNumber(units=units), noop_exec, init_fn, fin_fn)
+        if isinstance(units, dict):     # a categorical command: {"exclusive": [...], "additive": [...]}
+            b = b.with_command_regex_arguments(
+                name, RegexCategorical(exclusive_options=units.get("exclusive") or None,
+                                       additive_options=units.get("additive") or None), noop_exec, init_fn, fin_fn)
+        else:
+            b = b.with_command_regex_arguments(name, RegexNumber(units=units), noop_exec, init_fn, fin_fn)
     uod = b.build()
     hw.connect()
     return uod
